@@ -201,6 +201,13 @@ class Ctx:
                     if nb9 is not nb:
                         nb9.inlined_from = set(getattr(nb, 'inlined_from', set())) | set(getattr(nb9, 'inlined_from', set()))
                         nb = nb9
+                # closure bodies brought in by the desugarings may call helpers of the policy themselves
+                # (`(0..n).all(|i| within_tolerance(self.bounds[i], v[i]))`): one more inlining pass
+                if paths and any(t['func'].get('path') in paths for _bi, t in nb.calls()):
+                    nb10 = inline_calls(nb, pick, crate, max_rounds=24, sub=lambda cb: resolved(cb, depth + 1) if depth < 4 else cb)
+                    if nb10 is not nb:
+                        nb10.inlined_from = set(getattr(nb, 'inlined_from', set())) | set(getattr(nb10, 'inlined_from', set()))
+                        nb = nb10
                 from .inline import thread_jumps
                 nb4 = thread_jumps(nb)
                 if nb4 is not nb:
@@ -245,6 +252,9 @@ class Ctx:
             for blk in bj['blocks']:
                 t = blk['term']
                 if not blk['cleanup'] and t['k'] == 'call' and t['func'].get('path') in paths:
+                    import os
+                    if os.environ.get('OXA_DEBUG_VIEW'):
+                        print('   [view dropped] %s still calls %s' % (bj['path'], t['func'].get('path')), file=__import__('sys').stderr)
                     return False        # inlining bound reached: the view would be incomplete, do not use it
         j2 = dict(crate.j)
         j2['bodies'] = bodies
